@@ -51,6 +51,21 @@ pub fn stream_bytes(stream: usize, offset: usize, len: usize, kind: &str) -> Vec
         }
         v.extend_from_slice(&t[..n]);
     }
+    if kind == "edge" {
+        // valid text whose first and last characters are the ones text handling likes to drop:
+        // a byte-order mark, line ends, blanks, NUL (round 9: C16-26 stripped a leading U+FEFF)
+        let heads: [&[u8]; 6] = [&[0xEF, 0xBB, 0xBF], b"\n", b"\r\n", b" ", &[0], b"\t"];
+        let tails: [&[u8]; 6] = [b"\n", b"\r\n", b" ", &[0], &[0xEF, 0xBB, 0xBF], b"\n\n"];
+        let h = heads[offset % 6];
+        let t = tails[(offset / 6 + len) % 6];
+        if h.len() <= len {
+            v[..h.len()].copy_from_slice(h);
+        }
+        if h.len() + t.len() <= len {
+            let at = len - t.len();
+            v[at..].copy_from_slice(t);
+        }
+    }
     if let Some(k) = kind.strip_prefix("bad@")
         && len > 0
     {
@@ -596,6 +611,7 @@ fn gen_scenario(r: &mut Rng, tier: Tier) -> Value {
                     0 => format!("bad@{}", r.below(n.max(1))),
                     1 | 2 => "multi".into(),
                     3 => "cut".into(),
+                    4 | 5 => "edge".into(),
                     _ => "ascii".to_string(),
                 };
                 script.push(json!({"out": {"len": n, "kind": kind, "chunk": r.pick(&[1u64, 3, 64, 4096, 100_000])}}));
@@ -606,6 +622,7 @@ fn gen_scenario(r: &mut Rng, tier: Tier) -> Value {
                     0 => format!("bad@{}", r.below(n.max(1))),
                     1 | 2 => "multi".into(),
                     3 => "cut".into(),
+                    4 | 5 => "edge".into(),
                     _ => "ascii".to_string(),
                 };
                 script.push(json!({"err": {"len": n, "kind": kind, "chunk": r.pick(&[1u64, 3, 64, 4096, 100_000])}}));
@@ -620,7 +637,8 @@ fn gen_scenario(r: &mut Rng, tier: Tier) -> Value {
     match r.below(12) {
         0 => script.push(json!({"sleep": 10_000_000u64})), // never exits by itself
         1 => script.push(json!({"signal": 0})),
-        _ => script.push(json!({"exit": r.pick(&[0i64, 0, 0, 1, 3, 255])})),
+        // "all exit codes": the conventional ones (126/127 of launchers, 128+signal) are data like any other
+        _ => script.push(json!({"exit": if r.chance(25) { r.below(256) as i64 } else { r.pick(&[0i64, 0, 0, 0, 1, 2, 3, 126, 127, 128, 137, 255]) }})),
     }
     let stdin_pol = r.below(3);
     let stdin_len = if stdin_pol == 2 {
